@@ -62,7 +62,12 @@ def gen_case(cseed: int, tier: str) -> dict[str, Any]:
     defines: list[tuple[str, str]] = []
     if w.random() < 0.7:
         feats.add("defines")
-        pool = [("DEF0", w.choice(["0x12", "7", "0b101", "4660", "0xABCD"])), ("DEF1", w.choice(["0", "1"])), ("DEF2", w.choice(["1", "2", "3", "4"]))]
+        # every spelling int(value, 0) - what the command line documents as KEY=VALUE - accepts
+        pool = [
+            ("DEF0", w.choice(["0x12", "7", "0b101", "4660", "0xABCD", "0X12", "0B101", "4_660", "0o22", "+7", "0xab_cd", "0XAB"])),
+            ("DEF1", w.choice(["0", "1", "0", "1", "0x0", "+1", "0B1", "00"])),
+            ("DEF2", w.choice(["1", "2", "3", "4", "0b11", "0X2", "+3", "0o4"])),
+        ]
         defines = pool[: w.randrange(1, 4)]
     else:
         feats.discard("defines")
@@ -104,6 +109,7 @@ def executions(case: dict[str, Any]) -> Iterator[dict[str, Any]]:
             "abs_paths": rng.random() < 0.3,
             "positional_first": rng.random() < 0.6,
             "argv_order": rng.sample(range(6), 6),
+            "argv_style": rng.getrandbits(16) if rng.random() < 0.5 else None,
             "flags": [f for f in ("dump_symbols", "verbose") if rng.random() < 0.25],
             "out_subdir": rng.random() < 0.2,
             "src_subdir": rng.random() < 0.15,
@@ -179,6 +185,8 @@ def run_single(case: dict[str, Any], stats: Stats) -> list[Violation]:
     spec["positional_first"] = bool(case.get("positional_first", True))
     if case.get("argv_order"):
         spec["argv_order"] = case["argv_order"]
+    if case.get("argv_style") is not None:
+        spec["argv_style"] = case["argv_style"]
     for flag in case.get("flags") or []:
         spec[flag] = True
     if case.get("out_subdir") and not spec.get("no_output_opt"):
@@ -346,7 +354,7 @@ def sample_of(case: dict[str, Any]) -> Any:
 def shrink_candidates(case: dict[str, Any]) -> Iterator[dict[str, Any]]:
     if case.get("type") != "single":
         return
-    for key, val in (("stale", None), ("abs_paths", False), ("subprocess", False), ("positional_first", True), ("argv_order", None), ("flags", []), ("out_subdir", False), ("src_subdir", False), ("crlf", False)):
+    for key, val in (("stale", None), ("abs_paths", False), ("subprocess", False), ("positional_first", True), ("argv_order", None), ("argv_style", None), ("flags", []), ("out_subdir", False), ("src_subdir", False), ("crlf", False)):
         if case.get(key) not in (val, None):
             c = dict(case)
             c[key] = val
